@@ -87,4 +87,4 @@ class Function:
         self.built = True
 
         # Logging attributes
-        logger.debug(f'Pointer: {self.pointer.__name__} | Built: {self.built}')
+        logger.debug(f'Pointer: {getattr(self.pointer, "__name__", "callable")} | Built: {self.built}')
